@@ -1079,26 +1079,6 @@ enum filter_result mcount_entry_filter_check(struct mcount_thread_data *mtdp, un
 	return FILTER_IN;
 }
 
-/*
- * undo what mcount_entry_filter_check() did for a function it then rejected.
- * Only needed when no shadow stack entry is kept for the function (-pg and
- * fentry): nothing would restore the filter state at its exit.
- */
-static void mcount_entry_filter_undo(struct mcount_thread_data *mtdp, struct uftrace_trigger *tr)
-{
-	if (tr->flags & TRIGGER_FL_FILTER) {
-		if (tr->fmode == FILTER_MODE_IN)
-			mtdp->filter.in_count--;
-		else if (tr->fmode == FILTER_MODE_OUT)
-			mtdp->filter.out_count--;
-	}
-
-	mtdp->filter.depth = mtdp->filter.saved_depth;
-	mtdp->filter.max_depth = mtdp->filter.saved_max_depth;
-	mtdp->filter.time = mtdp->filter.saved_time;
-	mtdp->filter.size = mtdp->filter.saved_size;
-}
-
 static int script_save_context(struct script_context *sc_ctx, struct mcount_thread_data *mtdp,
 			       struct mcount_ret_stack *rstack, char *symname, bool has_arg_retval,
 			       struct list_head *pargs)
@@ -1431,11 +1411,6 @@ enum filter_result mcount_entry_filter_check(struct mcount_thread_data *mtdp, un
 	return FILTER_IN;
 }
 
-static inline void mcount_entry_filter_undo(struct mcount_thread_data *mtdp,
-					    struct uftrace_trigger *tr)
-{
-}
-
 void mcount_entry_filter_record(struct mcount_thread_data *mtdp, struct mcount_ret_stack *rstack,
 				struct uftrace_trigger *tr, struct mcount_regs *regs)
 {
@@ -1531,9 +1506,14 @@ void mcount_rstack_inject_return(struct mcount_thread_data *mtdp, unsigned long 
 	mcount_save_filter(mtdp);
 }
 
+/* trigger actions which change the filter state in the thread data */
+#define FILTER_STATE_FLAGS                                                                         \
+	(TRIGGER_FL_FILTER | TRIGGER_FL_DEPTH | TRIGGER_FL_TIME_FILTER | TRIGGER_FL_SIZE_FILTER)
+
 static int __mcount_entry(unsigned long *parent_loc, unsigned long child, struct mcount_regs *regs)
 {
 	enum filter_result filtered;
+	bool norecord = false;
 	struct mcount_thread_data *mtdp;
 	struct mcount_ret_stack *rstack;
 	struct uftrace_trigger tr;
@@ -1553,11 +1533,19 @@ static int __mcount_entry(unsigned long *parent_loc, unsigned long child, struct
 	tr.flags = 0;
 	filtered = mcount_entry_filter_check(mtdp, child, &tr);
 	if (filtered != FILTER_IN) {
-		/* this function gets no entry in the shadow stack */
-		if (filtered == FILTER_OUT)
-			mcount_entry_filter_undo(mtdp, &tr);
-		mcount_unguard_recursion(mtdp);
-		return -1;
+		/*
+		 * A rejected function whose trigger changed the filter state
+		 * keeps a (not recorded) entry in the shadow stack, like
+		 * __cygprof_entry() does: the new state holds for its callees
+		 * and is restored when it returns.
+		 */
+		if (filtered == FILTER_OUT && (tr.flags & FILTER_STATE_FLAGS)) {
+			norecord = true;
+		}
+		else {
+			mcount_unguard_recursion(mtdp);
+			return -1;
+		}
 	}
 
 	if (unlikely(mtdp->in_exception)) {
@@ -1587,9 +1575,9 @@ static int __mcount_entry(unsigned long *parent_loc, unsigned long child, struct
 	rstack->parent_loc = parent_loc;
 	rstack->parent_ip = *parent_loc;
 	rstack->child_ip = child;
-	rstack->start_time = mcount_gettime();
+	rstack->start_time = norecord ? 0 : mcount_gettime();
 	rstack->end_time = 0;
-	rstack->flags = 0;
+	rstack->flags = norecord ? MCOUNT_FL_NORECORD : 0;
 	rstack->nr_events = 0;
 	rstack->event_idx = ARGBUF_SIZE;
 
